@@ -88,6 +88,59 @@ def strlit_edits(src, m, a, b, skip_spans):
         res.append((st, en2, rep))
     return res
 
+def closure_edits(src, m, a, b, skip_spans):
+    """rule R32: an expression closure `|params| EXPR` (body not a block) gets the postcondition "the result is EXPR":
+    `|params| -> (r32: _) ensures equal(r32, EXPR) { EXPR }`.  Verus checks the postcondition against the body, so no
+    assumption is added; a body outside spec mode (calls without specification, side effects) makes the unit undecided,
+    as an unannotated closure passed to a std combinator already does.  Returns [(offset, text)] insertions."""
+    res = []
+    i = a
+    while True:
+        k = m.find('|', i, b)
+        if k < 0: break
+        i = k + 1
+        # `||` : either logical or, or a closure without parameters
+        j0 = k - 1
+        while j0 >= a and m[j0].isspace(): j0 -= 1
+        prev = m[j0] if j0 >= a else '('
+        mv = m[max(a, j0 - 3):j0 + 1] == 'move'
+        if not (prev in '(,=' or mv):
+            if m[k + 1:k + 2] == '|': i = k + 2
+            continue
+        if m[k + 1:k + 2] == '|':
+            pend = k + 1
+        else:
+            pend = m.find('|', k + 1, b)
+            if pend < 0: break
+            params = m[k + 1:pend]
+            if not re.match(r'^[A-Za-z0-9_&,():<>\s\[\]\'\*]*$', params):
+                continue
+        q = pend + 1
+        while q < b and m[q].isspace(): q += 1
+        if q >= b or m[q] == '{' or m[q:q + 2] == '->':
+            i = pend + 1
+            continue
+        # body: up to the first `,` or closing bracket at depth 0
+        depth = 0; e = q
+        while e < b:
+            ch = m[e]
+            if ch in '([{': depth += 1
+            elif ch in ')]}':
+                if depth == 0: break
+                depth -= 1
+            elif ch == ',' and depth == 0: break
+            e += 1
+        body_end = e
+        while body_end > q and m[body_end - 1].isspace(): body_end -= 1
+        if any(x <= k < y or x < body_end <= y for x, y in skip_spans):
+            i = pend + 1
+            continue
+        expr = ' '.join(src[q:body_end].split())
+        res.append((pend + 1, ' -> (r32: _) ensures equal(r32, ' + expr + ') {'))
+        res.append((body_end, ' }'))
+        i = body_end
+    return res
+
 def decode_rust_str(body):
     """decode the body of a normal Rust string literal to bytes (UTF-8)"""
     out = bytearray(); i = 0
@@ -551,6 +604,11 @@ class Unit:
             self.report['rewrites'].append({'rule': 'R8', 'file': repo_file, 'line': line(st_), 'before': src[st_:en_][:60], 'after': rep_[:80]})
             self.fmt_pieces = getattr(self, 'fmt_pieces', {})
             self.fmt_pieces.setdefault(disp, []).append(pieces_)
+        if mode == 'verify':
+            rew_spans = [(o_, o_ + d_) for (o_, d_, _) in edits if d_ > 0] + fmt_spans
+            for off_, txt_ in closure_edits(src, m, bo, item.end, rew_spans):
+                edits.append((off_, 0, [(txt_, ('gen', None, 0))]))
+                self.report['rewrites'].append({'rule': 'R32', 'file': repo_file, 'line': line(off_), 'before': '', 'after': txt_[:100]})
         if c and getattr(c, 'strbytes', False):
             for st_, en_, rep_ in strlit_edits(src, m, bo, item.end, fmt_spans):
                 edits.append((st_, en_ - st_, [(rep_, ('repo', repo_file, line(st_)))]))
